@@ -131,11 +131,22 @@ CLAIMED = {
             "PARTIAL: undefined behaviour inside compiled unsafe blocks beyond the modelled preconditions (pointer provenance, "
             "target_feature ABI, LLVM assume) and sanitizer-level facts are runtime properties of the artefact, not claimed; the "
             "TOTAL suite runs one corpus on a debug-assertions build and on an `unsafe` release build and requires identical results"),
+    "C18": ("PARTIAL.  Theorems about the crate's conditional-compilation structure, regenerated from the source on every run "
+            "(every module reachable from lib.rs; #[cfg]/#![cfg]/cfg_if! resolved; every place naming a std path, an alloc path or "
+            "a heap type/macro/method, with the conjunction of its guards; Cargo.toml's feature implications; the no_std and "
+            "`extern crate alloc` predicates), for EVERY assignment of every cfg atom (features, test, doc, target_*) respecting "
+            "the feature graph: (1) whatever is compiled names only items of a crate linked in that configuration; (2) with std "
+            "and alloc both off nothing that needs either is compiled; (3) in every non-test configuration heap constructs are "
+            "compiled only inside the documented stream/file helpers and std items elsewhere are audited non-allocating names; "
+            "(4) the tautology checker these rest on is sound for all environments.  The run-time half (no allocation during core "
+            "operations; the no-default-features build succeeds) is tied by correspondence: a counting global allocator around "
+            "every library call of ~16k operations per configuration whose results the model must also reproduce, and real "
+            "no-default-features builds compared with the theorems' prediction.",
+            "PARTIAL: allocation at run time and build success are facts of the compiled artefact; the theorems cover the source's "
+            "cfg structure only, dependencies (hex-simd, serde, bitfield-struct) only through the counting allocator; host target only"),
 }
 
 NA_REASON = {
-    "C18": "allocator traffic and no-std build success are properties of the compiled artefact/build system, not of any "
-           "function an executable Gallina model computes (DESIGN.md §C18)",
 }
 
 
